@@ -131,6 +131,20 @@ func desugarTableLoops(p *Prog) int {
 						var out []ast.Stmt
 						changed := false
 						for _, st := range list {
+							// `for i := 0; i < len(T); i++ { … T[i] … }` is `for i := range T { … }`
+							if fs, ok := st.(*ast.ForStmt); ok {
+								if rs := countingAsRange(info, fs); rs != nil {
+									if copies := unrollRange(info, pk.Types, rs, tableOf(rs.X)); copies != nil {
+										changed = true
+										n++
+										if id, ok := ast.Unparen(rs.X).(*ast.Ident); ok {
+											unrolledTables[info.ObjectOf(id)] = true
+										}
+										out = append(out, copies...)
+										continue
+									}
+								}
+							}
 							rs, ok := st.(*ast.RangeStmt)
 							if !ok {
 								out = append(out, st)
@@ -212,6 +226,72 @@ func desugarTableLoops(p *Prog) int {
 	return n
 }
 
+// countingAsRange reads `for i := 0; i < len(T); i++ { body }` (i not assigned in the body) as the range statement
+// `for i := range T { body }`; nil when the loop is not of that form.
+func countingAsRange(info *types.Info, fs *ast.ForStmt) *ast.RangeStmt {
+	as, ok := fs.Init.(*ast.AssignStmt)
+	if !ok || as.Tok != token.DEFINE || len(as.Lhs) != 1 || len(as.Rhs) != 1 || fs.Cond == nil || fs.Post == nil {
+		return nil
+	}
+	iv, ok := as.Lhs[0].(*ast.Ident)
+	if !ok {
+		return nil
+	}
+	if tv, ok := info.Types[as.Rhs[0]]; !ok || tv.Value == nil || tv.Value.ExactString() != "0" {
+		return nil
+	}
+	obj := info.Defs[iv]
+	be, ok := ast.Unparen(fs.Cond).(*ast.BinaryExpr)
+	if !ok {
+		return nil
+	}
+	var bound ast.Expr
+	isI := func(e ast.Expr) bool {
+		id, ok := ast.Unparen(e).(*ast.Ident)
+		return ok && info.Uses[id] == obj
+	}
+	switch {
+	case be.Op == token.LSS && isI(be.X):
+		bound = be.Y
+	case be.Op == token.GTR && isI(be.Y):
+		bound = be.X
+	default:
+		return nil
+	}
+	for {
+		c, ok := ast.Unparen(bound).(*ast.CallExpr)
+		if !ok {
+			return nil
+		}
+		if isConversion(info, c) && len(c.Args) == 1 {
+			bound = c.Args[0]
+			continue
+		}
+		id, ok := c.Fun.(*ast.Ident)
+		if !ok || id.Name != "len" || len(c.Args) != 1 {
+			return nil
+		}
+		bound = c.Args[0]
+		break
+	}
+	switch post := fs.Post.(type) {
+	case *ast.IncDecStmt:
+		if post.Tok != token.INC || !isI(post.X) {
+			return nil
+		}
+	case *ast.AssignStmt:
+		if post.Tok != token.ADD_ASSIGN || len(post.Lhs) != 1 || !isI(post.Lhs[0]) {
+			return nil
+		}
+		if tv, ok := info.Types[post.Rhs[0]]; !ok || tv.Value == nil || tv.Value.ExactString() != "1" {
+			return nil
+		}
+	default:
+		return nil
+	}
+	return &ast.RangeStmt{For: fs.For, Key: iv, Tok: token.DEFINE, X: bound, Body: fs.Body}
+}
+
 // unrollRange returns the statements of the unrolled loop, or nil when the loop is not a loop over a written-out table
 // that can be unrolled faithfully.
 func unrollRange(info *types.Info, pkg *types.Package, rs *ast.RangeStmt, table *ast.CompositeLit) []ast.Stmt {
@@ -271,6 +351,35 @@ func unrollRange(info *types.Info, pkg *types.Package, rs *ast.RangeStmt, table 
 			}
 		}
 		rows = append(rows, r)
+	}
+	// `if c { continue }` directly in the body is `if !c { the rest of the body }`
+	var guard func(list []ast.Stmt) []ast.Stmt
+	guard = func(list []ast.Stmt) []ast.Stmt {
+		for i, st := range list {
+			is, ok := st.(*ast.IfStmt)
+			if !ok || is.Else != nil || len(is.Body.List) != 1 {
+				continue
+			}
+			br, ok := is.Body.List[0].(*ast.BranchStmt)
+			if !ok || br.Tok != token.CONTINUE || br.Label != nil {
+				continue
+			}
+			not := &ast.UnaryExpr{OpPos: is.Cond.Pos(), Op: token.NOT, X: &ast.ParenExpr{Lparen: is.Cond.Pos(), X: is.Cond, Rparen: is.Cond.End()}}
+			if tv, ok := info.Types[is.Cond]; ok {
+				info.Types[not] = tv
+				info.Types[not.X] = tv
+			}
+			rest := guard(append([]ast.Stmt{}, list[i+1:]...))
+			out := append([]ast.Stmt{}, list[:i]...)
+			if is.Init != nil {
+				out = append(out, is.Init)
+			}
+			return append(out, &ast.IfStmt{If: is.If, Cond: not, Body: &ast.BlockStmt{Lbrace: is.Body.Lbrace, List: rest, Rbrace: rs.Body.Rbrace}})
+		}
+		return list
+	}
+	if g := guard(rs.Body.List); len(g) != len(rs.Body.List) || (len(g) > 0 && g[len(g)-1] != rs.Body.List[len(rs.Body.List)-1]) {
+		rs = &ast.RangeStmt{For: rs.For, Key: rs.Key, Value: rs.Value, Tok: rs.Tok, X: rs.X, Body: &ast.BlockStmt{Lbrace: rs.Body.Lbrace, List: g, Rbrace: rs.Body.Rbrace}}
 	}
 	// the body: no break/continue of this loop, no goto; the loop variables only read
 	okBody := true
@@ -355,6 +464,9 @@ func unrollRange(info *types.Info, pkg *types.Package, rs *ast.RangeStmt, table 
 	var out []ast.Stmt
 	for k, r := range rows {
 		c := &cloner{info: info, pkg: pkg, rename: map[types.Object]types.Object{}, keyObj: keyObj, valObj: valObj, index: k, row: r.whole, fields: r.fields}
+		if _, isIdent := ast.Unparen(rs.X).(*ast.Ident); isIdent {
+			c.tableText = types.ExprString(rs.X)
+		}
 		// fresh objects for what the body declares
 		ast.Inspect(rs.Body, func(m ast.Node) bool {
 			if id, ok := m.(*ast.Ident); ok {
@@ -411,6 +523,7 @@ type cloner struct {
 	rename         map[types.Object]types.Object
 	keyObj, valObj types.Object
 	index          int
+	tableText      string // the table as written in the loop header (T of `range T`), for T[i]
 	row            ast.Expr
 	fields         map[string]ast.Expr
 }
@@ -459,6 +572,13 @@ func (c *cloner) clone(v reflect.Value) reflect.Value {
 					return reflect.ValueOf(c.plain(fe))
 				}
 			}
+			if ix, ok := ast.Unparen(x.X).(*ast.IndexExpr); ok && c.keyObj != nil && c.tableText != "" && c.fields != nil {
+				if id, ok := ast.Unparen(ix.Index).(*ast.Ident); ok && c.info.Uses[id] == c.keyObj && types.ExprString(ix.X) == c.tableText {
+					if fe := c.fields[x.Sel.Name]; fe != nil {
+						return reflect.ValueOf(c.plain(fe))
+					}
+				}
+			}
 		case *ast.Ident:
 			if o := c.info.Uses[x]; o != nil {
 				if c.valObj != nil && o == c.valObj {
@@ -475,12 +595,28 @@ func (c *cloner) clone(v reflect.Value) reflect.Value {
 		case *ast.CallExpr:
 			// a row that is a parameterless function literal doing nothing but `return E`, called in place: E
 			if len(x.Args) == 0 {
+				isRow := false
 				if id, ok := ast.Unparen(x.Fun).(*ast.Ident); ok && c.valObj != nil && c.info.Uses[id] == c.valObj {
+					isRow = true
+				}
+				if ix, ok := ast.Unparen(x.Fun).(*ast.IndexExpr); ok && c.keyObj != nil && c.tableText != "" {
+					if id, ok := ast.Unparen(ix.Index).(*ast.Ident); ok && c.info.Uses[id] == c.keyObj && types.ExprString(ix.X) == c.tableText {
+						isRow = true
+					}
+				}
+				if isRow {
 					if lit, ok := ast.Unparen(c.row).(*ast.FuncLit); ok && (lit.Type.Params == nil || len(lit.Type.Params.List) == 0) && len(lit.Body.List) == 1 {
 						if r, ok := lit.Body.List[0].(*ast.ReturnStmt); ok && len(r.Results) == 1 {
 							return reflect.ValueOf(c.plain(r.Results[0]))
 						}
 					}
+				}
+			}
+		case *ast.IndexExpr:
+			// T[i] with i the index of the row being written out: the row (and T[i].f its field)
+			if c.keyObj != nil && c.tableText != "" {
+				if id, ok := ast.Unparen(x.Index).(*ast.Ident); ok && c.info.Uses[id] == c.keyObj && types.ExprString(x.X) == c.tableText {
+					return reflect.ValueOf(c.plain(c.row))
 				}
 			}
 		case *ast.StarExpr:
